@@ -199,7 +199,14 @@ int main(int argc, char **argv) {
                 long m0 = vh_ledger_mark();
                 bool enc = !(profile == 0 && (vh_step & 1));
                 char sep = (vh_step & 2) ? '=' : ':';
-                bool sok = T->save(T, scratch, sep, enc);
+                /* the I/O failure outcomes first: a path that cannot be opened is refused, nothing changes, no lock is kept */
+                int badio = 0;
+                if (!inject) {
+                    if (T->save(T, "/nonexistent-directory/for/qlisttbl/save", sep, enc)) badio++;
+                    qlisttbl_t *W = qlisttbl(opts & ~QLISTTBL_THREADSAFE);
+                    if (W) { if (W->load(W, "/nonexistent-directory/for/qlisttbl/load", sep, enc) > 0 || W->size(W) != 0) badio++; W->free(W); }
+                }
+                bool sok = T->save(T, scratch, sep, enc) && !badio;
                 qlisttbl_t *U = qlisttbl(opts & ~QLISTTBL_THREADSAFE);
                 long cnt = -1;
                 if (U) {
